@@ -1,2 +1,311 @@
-(* C15 — placeholder while the harness is brought up; replaced below *)
-From SID Require Import Api.
+(* C15 — Invalid input is rejected with an error, never a panic or a silent answer.
+   Only statements, `exact` proofs and Print Assumptions live here. Predicates invalid_<fn> ("the documentation excludes this
+   input"), the validation-prefix models and all proofs: theories/Api.v; the models of the individual functions belong to the
+   properties named in each comment. A model result is `Ok _ | Err` (or a pair with an error flag): every model is a total
+   function, so "no panic" is totality plus the Panic observable of the harness, which no model ever returns. *)
+From Coq Require Import ZArith String List Bool Floats Reals.
+From Flocq Require Import Core.
+From SID Require Import Base Str Ids F64 ExactRef PtBridge ZoomCore AltKeyCore ChangeZoom Merge MergeApi Shift Neighbour Notation PointF VertexF Line
+  Project Overlap QuadkeyConv Corridor SetLatProofs Api.
+Import ListNotations.
+Open Scope Z_scope.
+
+(* ================= common/object ================= *)
+(* NewPoint refuses |lon| > 180 and a latitude whose ten-decimal cut exceeds 85.0511287798 (and nothing else) *)
+Theorem C15_new_point_error_iff_out_of_range : forall lon lat alt,
+  snd (new_point lon lat alt) = ((180 <? abs lon)%float || (c_latmax <? abs (setlat_trunc lat))%float).
+Proof. exact new_point_flag. Qed.
+Print Assumptions C15_new_point_error_iff_out_of_range.
+(* accepted points: longitude and altitude stored unchanged, latitude = the ten-decimal cut *)
+Theorem C15_new_point_stores_lon_alt_unchanged : forall lon lat alt, invalid_new_point lon lat = false ->
+  fst (new_point lon lat alt) = {| plon := lon; plat := setlat_trunc lat; palt := alt |}.
+Proof. exact new_point_stores. Qed.
+Print Assumptions C15_new_point_stores_lon_alt_unchanged.
+Theorem C15_new_point_is_the_setters : forall lon lat alt,
+  new_point lon lat alt =
+  let '(p1, e1) := set_lon zero_point lon in
+  if e1 then (p1, true)
+  else let '(p2, e2) := set_lat p1 lat in
+       if e2 then (p2, true) else ({| plon := plon p2; plat := plat p2; palt := alt |}, false).
+Proof. exact new_point_is_setters. Qed.
+Print Assumptions C15_new_point_is_the_setters.
+Theorem C15_set_lon_rejects : forall p lon, (180 <? abs lon)%float = true -> set_lon p lon = (p, true).
+Proof. exact set_lon_rejects. Qed.
+Print Assumptions C15_set_lon_rejects.
+Theorem C15_set_lat_rejects : forall p lat, (c_latmax <? abs (setlat_trunc lat))%float = true -> set_lat p lat = (p, true).
+Proof. exact set_lat_rejects. Qed.
+Print Assumptions C15_set_lat_rejects.
+Theorem C15_set_lon_stores : forall p lon, invalid_set_lon lon = false ->
+  set_lon p lon = ({| plon := lon; plat := plat p; palt := palt p |}, false).
+Proof. exact set_lon_stores. Qed.
+Print Assumptions C15_set_lon_stores.
+Theorem C15_set_lat_stores : forall p lat, invalid_set_lat lat = false ->
+  set_lat p lat = ({| plon := plon p; plat := setlat_trunc lat; palt := palt p |}, false).
+Proof. exact set_lat_stores. Qed.
+Print Assumptions C15_set_lat_stores.
+(* "latitude cut toward zero by less than 1e-10 degrees" is FALSE of the bit-exact SetLat (finding class setlat_inexact, D20; proved
+   by the C01 builder): witness float64(12.9086804579), stored as 12.9086804578 *)
+Theorem C15_setlat_documented_cut_refuted :
+  exists lat, ffin lat = true /\ (Rabs (fval lat) <= 85)%R /\
+              ~ (0 <= Rabs (fval lat) - Rabs (fval (setlat_trunc lat)) < 1 / 10 ^ 10)%R.
+Proof. exact setlat_inexact_refuted. Qed.
+Print Assumptions C15_setlat_documented_cut_refuted.
+(* what holds instead (partial: a slack of 2^-46 = 1.4e-14 degrees on both sides) *)
+Theorem C15_setlat_cut_partial : forall lat, ffin lat = true -> (Rabs (fval lat) <= 90)%R ->
+  (- bpow radix2 (-46) <= Rabs (fval lat) - Rabs (fval (setlat_trunc lat)) <= 1 / 10 ^ 10 + bpow radix2 (-46))%R.
+Proof. exact setlat_cut_bounds. Qed.
+Print Assumptions C15_setlat_cut_partial.
+(* the run-time reference of the dispatch entries decides the documented statement exactly *)
+Theorem C15_setlat_checker_sound : forall lat s, ffin lat = true -> ffin s = true ->
+  exact_cut_ok lat s = true <-> (0 <= Rabs (fval lat) - Rabs (fval s) < 1 / 10 ^ 10)%R.
+Proof. exact exact_cut_ok_spec. Qed.
+Print Assumptions C15_setlat_checker_sound.
+
+(* NewExtendedSpatialID / ResetExtendedSpatialID (model Notation.new_eid, C10): error iff not five '/'-separated int64 fields *)
+Theorem C15_new_eid_error_iff_malformed : forall s, is_ok (new_eid s) = negb (invalid_new_eid s).
+Proof. exact new_eid_flag. Qed.
+Print Assumptions C15_new_eid_error_iff_malformed.
+Theorem C15_new_eid_rejects : forall s, parse_eid s = None -> new_eid s = Err.
+Proof. exact new_eid_rejects_unparsed. Qed.
+Print Assumptions C15_new_eid_rejects.
+Theorem C15_reset_eid_rejects_and_keeps_the_object : forall old s, invalid_new_eid s = true -> reset_eid old s = (old, true).
+Proof. exact reset_eid_rejects. Qed.
+Print Assumptions C15_reset_eid_rejects_and_keeps_the_object.
+(* NewTileXYZ / SetHZoom / SetVZoom: zooms outside 0..35 *)
+Theorem C15_new_tile_error_iff_bad_zoom : forall h x y v z, is_ok (new_tile h x y v z) = negb (zoom_bad h || zoom_bad v).
+Proof. exact new_tile_flag. Qed.
+Print Assumptions C15_new_tile_error_iff_bad_zoom.
+Theorem C15_tile_set_hzoom_rejects : forall t h, zoom_bad h = true -> tile_set_hzoom t h = (t, true).
+Proof. exact tile_set_hzoom_rejects. Qed.
+Print Assumptions C15_tile_set_hzoom_rejects.
+Theorem C15_tile_set_vzoom_rejects : forall t v, zoom_bad v = true -> tile_set_vzoom t v = (t, true).
+Proof. exact tile_set_vzoom_rejects. Qed.
+Print Assumptions C15_tile_set_vzoom_rejects.
+
+(* ================= shape ================= *)
+(* point lookup (models of C01), for every oracle of the transcendental functions: a zoom outside 0..35 or a nil point is an error *)
+Theorem C15_points_rejects : forall m_tan m_cos m_log has_nil l h v, invalid_points has_nil h v = true ->
+  points_api m_tan m_cos m_log has_nil l h v = Err.
+Proof. exact points_rejects. Qed.
+Print Assumptions C15_points_rejects.
+Theorem C15_points_sid_rejects : forall m_tan m_cos m_log has_nil l z, invalid_points has_nil z z = true ->
+  points_sid_api m_tan m_cos m_log has_nil l z = Err.
+Proof. exact points_sid_rejects. Qed.
+Print Assumptions C15_points_sid_rejects.
+(* and nothing else is refused (as long as every intermediate float is finite: the property's domain) *)
+Theorem C15_points_error_flag : forall m_tan m_cos m_log has_nil l h v, points_eids m_tan m_cos m_log l h v <> None ->
+  is_ok (points_api m_tan m_cos m_log has_nil l h v) = negb (invalid_points has_nil h v).
+Proof. exact points_flag. Qed.
+Print Assumptions C15_points_error_flag.
+Theorem C15_points_sid_error_flag : forall m_tan m_cos m_log has_nil l z, points_eids m_tan m_cos m_log l z z <> None ->
+  is_ok (points_sid_api m_tan m_cos m_log has_nil l z) = negb (invalid_points has_nil z z).
+Proof. exact points_sid_flag. Qed.
+Print Assumptions C15_points_sid_error_flag.
+(* line (models of C06) *)
+Theorem C15_line_rejects : forall m_tan m_cos m_log has_nil s e h v, invalid_points has_nil h v = true ->
+  line_api m_tan m_cos m_log has_nil s e h v = Err.
+Proof. exact line_rejects. Qed.
+Print Assumptions C15_line_rejects.
+Theorem C15_line_sid_rejects : forall m_tan m_cos m_log has_nil s e z, invalid_points has_nil z z = true ->
+  line_sid_api m_tan m_cos m_log has_nil s e z = Err.
+Proof. exact line_sid_rejects. Qed.
+Print Assumptions C15_line_sid_rejects.
+(* ID -> points (models of C02): error iff the ID is malformed, a zoom field is outside 0..35, or the option is not Vertex / Center *)
+Theorem C15_point_on_eid_error_flag : forall m_sinh m_atan id opt,
+  is_ok (point_on_eid_api m_sinh m_atan id opt) = negb (invalid_point_on_eid id opt).
+Proof. exact point_on_eid_flag. Qed.
+Print Assumptions C15_point_on_eid_error_flag.
+Theorem C15_point_on_sid_error_flag : forall m_sinh m_atan id opt,
+  is_ok (point_on_sid_api m_sinh m_atan id opt) = negb (invalid_point_on_sid id opt).
+Proof. exact point_on_sid_flag. Qed.
+Print Assumptions C15_point_on_sid_error_flag.
+Theorem C15_point_on_eid_rejects : forall m_sinh m_atan id opt, invalid_point_on_eid id opt = true ->
+  point_on_eid_api m_sinh m_atan id opt = Err.
+Proof. exact point_on_eid_rejects. Qed.
+Print Assumptions C15_point_on_eid_rejects.
+Theorem C15_point_on_sid_rejects : forall m_sinh m_atan id opt, invalid_point_on_sid id opt = true ->
+  point_on_sid_api m_sinh m_atan id opt = Err.
+Proof. exact point_on_sid_rejects. Qed.
+Print Assumptions C15_point_on_sid_rejects.
+Theorem C15_point_on_sid_malformed_is_invalid : forall id opt, wf4 id = false -> invalid_point_on_sid id opt = true.
+Proof. exact invalid_point_on_sid_malformed. Qed.
+Print Assumptions C15_point_on_sid_malformed_is_invalid.
+(* notation changes (models of C10): error iff a member has not exactly four / five fields; the fields are not interpreted *)
+Theorem C15_s2e_error_iff_arity : forall l, is_ok (sids_to_eids l) = negb (some_bad ar4 l).
+Proof. exact s2e_flag. Qed.
+Print Assumptions C15_s2e_error_iff_arity.
+Theorem C15_e2s_error_iff_arity : forall l, is_ok (eids_to_sids l) = negb (some_bad ar5 l).
+Proof. exact e2s_flag. Qed.
+Print Assumptions C15_e2s_error_iff_arity.
+(* projections (validation prefix; the rest of the functions is C18's model): an EPSG code that the library's table does not hold is
+   an error for every list, the empty one included, and only such a code is refused by the prefix *)
+Theorem C15_unknown_epsg_rejected : forall (A : Type) crs (body : unit -> list A * bool),
+  epsg_known crs = false -> project_prefix crs body = ([], true).
+Proof. exact (@project_rejects_unknown). Qed.
+Print Assumptions C15_unknown_epsg_rejected.
+Theorem C15_known_epsg_passes_the_prefix : forall (A : Type) crs (body : unit -> list A * bool),
+  invalid_project crs = false -> project_prefix crs body = body tt.
+Proof. exact (@project_known). Qed.
+Print Assumptions C15_known_epsg_passes_the_prefix.
+
+(* ================= integrate ================= *)
+(* zoom change and merge (models of C03, C04): error iff a target zoom is outside 0..35 or a member is malformed *)
+Theorem C15_change_ext_error_flag : forall ids H V, is_ok (change_ext_api ids H V) = negb (zoom_bad H || zoom_bad V || some_bad wf5 ids).
+Proof. exact change_ext_flag. Qed.
+Print Assumptions C15_change_ext_error_flag.
+Theorem C15_change_sid_error_flag : forall sids z, is_ok (change_sid_api sids z) = negb (zoom_bad z || some_bad wf4 sids).
+Proof. exact change_sid_flag. Qed.
+Print Assumptions C15_change_sid_error_flag.
+Theorem C15_merge_ext_error_flag : forall ids H V, is_ok (merge_ext_api ids H V) = negb (zoom_bad H || zoom_bad V || some_bad wf5 ids).
+Proof. exact merge_ext_flag. Qed.
+Print Assumptions C15_merge_ext_error_flag.
+Theorem C15_merge_sid_error_flag : forall sids z, is_ok (merge_sid_api sids z) = negb (zoom_bad z || some_bad wf4 sids).
+Proof. exact merge_sid_flag. Qed.
+Print Assumptions C15_merge_sid_error_flag.
+Theorem C15_change_ext_rejects : forall ids H V, invalid_change_ext ids H V = true -> change_ext_api ids H V = Err.
+Proof. exact change_ext_rejects. Qed.
+Print Assumptions C15_change_ext_rejects.
+Theorem C15_change_sid_rejects : forall sids z, invalid_change_sid sids z = true -> change_sid_api sids z = Err.
+Proof. exact change_sid_rejects. Qed.
+Print Assumptions C15_change_sid_rejects.
+Theorem C15_merge_ext_rejects : forall ids H V, invalid_change_ext ids H V = true -> merge_ext_api ids H V = Err.
+Proof. exact merge_ext_rejects. Qed.
+Print Assumptions C15_merge_ext_rejects.
+Theorem C15_merge_sid_rejects : forall sids z, invalid_change_sid sids z = true -> merge_sid_api sids z = Err.
+Proof. exact merge_sid_rejects. Qed.
+Print Assumptions C15_merge_sid_rejects.
+
+(* ================= operated ================= *)
+(* the shift helpers (models of C07, C08) have no error result: "" / 6, 8, 26 empty IDs on a malformed ID, and only then *)
+Theorem C15_shift_rejects : forall s dx dy dv, invalid_shift s = true -> shift_api s dx dy dv = EmptyString.
+Proof. exact shift_rejects. Qed.
+Print Assumptions C15_shift_rejects.
+Theorem C15_shift_accepts : forall s dx dy dv, invalid_shift s = false -> shift_api s dx dy dv <> EmptyString.
+Proof. exact shift_accepts. Qed.
+Print Assumptions C15_shift_accepts.
+Theorem C15_n6_rejects : forall s, invalid_shift s = true -> n6_api s = repeat EmptyString 6.
+Proof. exact n6_rejects. Qed.
+Print Assumptions C15_n6_rejects.
+Theorem C15_n8_rejects : forall s, invalid_shift s = true -> n8_api s = repeat EmptyString 8.
+Proof. exact n8_rejects. Qed.
+Print Assumptions C15_n8_rejects.
+Theorem C15_n26_rejects : forall s, invalid_shift s = true -> n26_api s = repeat EmptyString 26.
+Proof. exact n26_rejects. Qed.
+Print Assumptions C15_n26_rejects.
+Theorem C15_nN_error_flag : forall ids H V, is_ok (nN_api ids H V) = negb ((H <? 0) || (V <? 0) || some_bad wf5 ids).
+Proof. exact nN_flag. Qed.
+Print Assumptions C15_nN_error_flag.
+Theorem C15_nN_rejects : forall ids H V, invalid_nN ids H V = true -> nN_api ids H V = Err.
+Proof. exact nN_rejects. Qed.
+Print Assumptions C15_nN_rejects.
+
+(* ================= detector ================= *)
+(* overlap checks (models of C05): a malformed argument is an error (the model's Err stands for (false, error)) *)
+Theorem C15_ext_overlap_rejects : forall a b, invalid_ext_overlap a b = true -> ext_overlap a b = Err.
+Proof. exact ext_overlap_rejects. Qed.
+Print Assumptions C15_ext_overlap_rejects.
+Theorem C15_sp_overlap_rejects : forall a b, invalid_sp_overlap a b = true -> sp_overlap a b = Err.
+Proof. exact sp_overlap_rejects. Qed.
+Print Assumptions C15_sp_overlap_rejects.
+(* array forms: a malformed member, both lists non-empty, and no pair of members that overlaps: error (the member must have been
+   interpreted). When a list is empty or an overlapping pair exists the functions may answer before reaching the member: not demanded. *)
+Theorem C15_ext_array_rejects : forall l1 l2, invalid_ext_array l1 l2 = true -> ext_array l1 l2 = Err.
+Proof. exact ext_array_rejects. Qed.
+Print Assumptions C15_ext_array_rejects.
+Theorem C15_sp_array_rejects : forall l1 l2, invalid_sp_array l1 l2 = true -> sp_array l1 l2 = Err.
+Proof. exact sp_array_rejects. Qed.
+Print Assumptions C15_sp_array_rejects.
+(* the first list of the spatial form is always validated completely *)
+Theorem C15_sp_array_first_list_validated : forall l1 l2 r, sp_array l1 l2 = Ok r -> some_bad wf4 l1 = false.
+Proof. exact sp_array_first_list. Qed.
+Print Assumptions C15_sp_array_first_list_validated.
+
+(* ================= transform ================= *)
+(* ID -> key conversions (models of C11, C12): exact error flags, and the documented exclusions imply them *)
+Theorem C15_e2q_error_flag : forall (par : PrimFloat.float * PrimFloat.float) index ids oh ov, is_ok (e2q par index ids oh ov) = negb (err_e2q index ids oh ov).
+Proof. exact (@e2q_flag (PrimFloat.float * PrimFloat.float)). Qed.
+Print Assumptions C15_e2q_error_flag.
+Theorem C15_e2q_rejects : forall (par : PrimFloat.float * PrimFloat.float) index ids oh ov, invalid_e2q index ids oh ov = true -> e2q par index ids oh ov = Err.
+Proof. exact (@e2q_rejects (PrimFloat.float * PrimFloat.float)). Qed.
+Print Assumptions C15_e2q_rejects.
+Theorem C15_s2q_error_flag : forall (par : PrimFloat.float * PrimFloat.float) index sids oh ov, is_ok (s2q par index sids oh ov) = negb (err_s2q index sids oh ov).
+Proof. exact (@s2q_flag (PrimFloat.float * PrimFloat.float)). Qed.
+Print Assumptions C15_s2q_error_flag.
+Theorem C15_s2q_rejects : forall (par : PrimFloat.float * PrimFloat.float) index sids oh ov, invalid_s2q index sids oh ov = true -> s2q par index sids oh ov = Err.
+Proof. exact (@s2q_rejects (PrimFloat.float * PrimFloat.float)). Qed.
+Print Assumptions C15_s2q_rejects.
+Theorem C15_e2qa_error_flag : forall ids oq oa E O, is_ok (e2qa ids oq oa E O) = negb (err_e2qa ids oq oa E O).
+Proof. exact e2qa_flag. Qed.
+Print Assumptions C15_e2qa_error_flag.
+Theorem C15_e2qa_rejects : forall ids oq oa E O, invalid_e2qa ids oq oa = true -> e2qa ids oq oa E O = Err.
+Proof. exact e2qa_rejects. Qed.
+Print Assumptions C15_e2qa_rejects.
+(* key -> ID conversions (models of C11) *)
+Theorem C15_q2e_error_flag : forall items oh ov, is_ok (q2e items oh ov) = negb (err_q2e items oh ov).
+Proof. exact q2e_flag. Qed.
+Print Assumptions C15_q2e_error_flag.
+Theorem C15_q2e_rejects : forall items oh ov, invalid_q2e items oh ov = true -> q2e items oh ov = Err.
+Proof. exact q2e_rejects. Qed.
+Print Assumptions C15_q2e_rejects.
+Theorem C15_q2s_error_flag : forall items z, is_ok (q2s items z) = negb (err_q2e items z z).
+Proof. exact q2s_flag. Qed.
+Print Assumptions C15_q2s_error_flag.
+Theorem C15_q2s_rejects : forall items z, invalid_q2e items z z = true -> q2s items z = Err.
+Proof. exact q2s_rejects. Qed.
+Print Assumptions C15_q2s_rejects.
+(* tiles (validation prefix of Api.v): an output zoom outside 0..35 is an error for every request, the empty one included; with a
+   valid output zoom only the altitude conversion of some tile can refuse *)
+Theorem C15_tiles_rejects : forall l E O outV, zoom_bad outV = true -> err_tiles l E O outV = true.
+Proof. exact tiles_rejects. Qed.
+Print Assumptions C15_tiles_rejects.
+Theorem C15_tiles_error_flag_valid_zoom : forall l E O outV, zoom_bad outV = false -> forallb tile_ok l = true ->
+  err_tiles l E O outV = existsb (fun t => negb (is_ok (key2z (tz t) (tv t) outV E O))) l.
+Proof. exact tiles_flag_valid_zoom. Qed.
+Print Assumptions C15_tiles_error_flag_valid_zoom.
+(* altitude keys (models of C12): zooms are not validated as such (finding class altkey_zoom_unchecked); partial: a negative
+   input zoom is always refused *)
+Theorem C15_altkey_zoom_unchecked_refuted :
+  invalid_altkey 36 3 = true /\ z2key 0 36 3 25 0 = Ok (0, 0) /\
+  invalid_altkey 3 36 = true /\ key2z 0 3 36 25 0 = Ok (0, 8589934591).
+Proof. exact altkey_zoom_unchecked_refuted. Qed.
+Print Assumptions C15_altkey_zoom_unchecked_refuted.
+Theorem C15_z2key_negative_zoom_partial : forall f z out E O, z < 0 -> z2key f z out E O = Err.
+Proof. exact z2key_negative_zoom. Qed.
+Print Assumptions C15_z2key_negative_zoom_partial.
+Theorem C15_key2z_negative_zoom_partial : forall k kz out E O, kz < 0 -> key2z k kz out E O = Err.
+Proof. exact key2z_negative_zoom. Qed.
+Print Assumptions C15_key2z_negative_zoom_partial.
+(* clearance fit and corridor (models of C14): negative clearance / radius, malformed ID, nil point, zoom outside 0..35 *)
+Theorem C15_fit_rejects : forall fuel dx dy id c, invalid_fit id c = true -> fit_model (S fuel) dx dy id c = Some Err.
+Proof. exact fit_rejects. Qed.
+Print Assumptions C15_fit_rejects.
+Theorem C15_fit_accepts_zero_clearance : forall fuel dx dy i, valid i ->
+  (dx (print_eid i) 1%Z <? 0)%float = false -> (dy (print_eid i) 1%Z <? 0)%float = false ->
+  fit_model (S fuel) dx dy (print_eid i) 0%float = Some (Ok (0, 0)).
+Proof. exact fit_accepts_zero. Qed.
+Print Assumptions C15_fit_accepts_zero_clearance.
+Theorem C15_corridor_rejects : forall ord_n ord_u ord_q m_tan m_cos m_log fuel dx dy measure has_nil s e h v r skip,
+  invalid_corridor has_nil h v r = true ->
+  corridor ord_n ord_u ord_q (fit_of_model fuel dx dy r) measure (line_api m_tan m_cos m_log has_nil s e h v) skip = Err.
+Proof. exact corridor_rejects. Qed.
+Print Assumptions C15_corridor_rejects.
+(* GetVoxelIDfromSpatialID has no error result (model of C10): fewer than five fields give the empty list, and only they *)
+Theorem C15_voxel_id_short_gives_empty : forall s, invalid_voxel s = true -> voxel_id s = [].
+Proof. exact voxel_rejects. Qed.
+Print Assumptions C15_voxel_id_short_gives_empty.
+Theorem C15_voxel_id_empty_only_if_short : forall s, voxel_id s = [] -> invalid_voxel s = true.
+Proof. exact voxel_empty_only_if_short. Qed.
+Print Assumptions C15_voxel_id_empty_only_if_short.
+
+(* ================= non-vacuity ================= *)
+Example C15_nonvacuous_malformed :
+  invalid_change_ext ["1/0/0/1/0"; "1/0/0/1/"]%string 1 1 = true /\ invalid_change_ext ["1/0/0/1/0"]%string 36 1 = true /\
+  invalid_change_ext ["1/0/0/1/0"]%string 1 1 = false /\ change_ext_api ["1/0/0/1/0"]%string 1 1 = Ok ["1/0/0/1/0"]%string /\
+  invalid_change_sid ["1/b/0/0"]%string 1 = true /\ invalid_nN ["1/0/0/1/0"]%string (-1) 0 = true /\
+  invalid_ext_overlap "1/0/0/1/0" "1/0/0/1" = true /\ invalid_sp_overlap "1/b/0/0" "1/0/0/0" = true /\
+  invalid_q2e [mkq 0 0 0 0 true] 0 0 = true /\ invalid_q2e [mkq 1 0 0 0 true] 0 0 = false /\
+  invalid_e2q true ["1/2"]%string 5 5 = true /\ invalid_fit "x/0/0/1/0" 0 = true /\ invalid_fit "1/0/0/1/0" 0 = false /\
+  invalid_point_on_eid "1/0/0/1/0" 2 = true /\ invalid_point_on_eid "1/0/0/1/0" 1 = false /\
+  invalid_new_point 180.00000000000003 0 = true /\ invalid_new_point 180 85.05112877989 = false /\
+  invalid_new_point 0 85.0511287799 = true.
+Proof. vm_compute. repeat split; reflexivity. Qed.
